@@ -96,7 +96,8 @@ def eval_pair(ctx, a, b):
 
 
 def run_exhaustive(shard, ctx):
-    ivs = [(s, e) for s in range(0, 8) for e in range(s, 8)]
+    top = shard.get("top", 8)
+    ivs = [(s, e) for s in range(0, top) for e in range(s, top)]
     k = 0
     for (s1, e1), (s2, e2) in itertools.product(ivs, ivs):
         for same in (True, False):
@@ -269,7 +270,7 @@ def replay(case, ctx):
 
 
 def plan(tier, seed):
-    sh = [{"kind": "exhaustive", "part": p, "nparts": 4} for p in range(4)]
+    sh = [{"kind": "exhaustive", "part": p, "nparts": 4, "top": 8 if tier == "quick" else 12} for p in range(4)]
     n, per = (4, 25000) if tier == "quick" else (8, 400000)
     sh += [{"kind": "pairs", "n": per} for _ in range(n)]
     n, per = (8, 1500) if tier == "quick" else (16, 12000)
